@@ -415,6 +415,11 @@ func (c *FnCtx) applyCallee(st *State, site ast.Node, key string, sig *types.Sig
 		if isRepo {
 			// repository function without contract: results unconstrained, heap havocked
 			c.eng.note("callee without contract: %s (results unconstrained, all heap havocked)", shortFuncKey(key))
+			if !c.sweep && c.canInline(fiCallee, recv, recvT) {
+				if rs, ok := c.inlineCall(st, fiCallee, recv, args, site); ok {
+					return rs
+				}
+			}
 			c.havocAllHeap(st)
 			var rs []*Term
 			for i := 0; i < nres; i++ {
@@ -736,4 +741,110 @@ func (e *Engine) canonicalMethodKey(key string, recvT types.Type) string {
 	}
 	e.canon[ck] = res
 	return res
+}
+
+
+// ---------------------------------------------------------------------------
+// inlining of repository functions without contract (small helpers, typically extracted by a refactoring): the body is
+// executed at the call site instead of havocking the heap. Only loop-free, closure-free, non-recursive bodies.
+
+func (c *FnCtx) canInline(fi *FuncInfo, recv *Term, recvT types.Type) bool {
+	if fi == nil || fi.Decl == nil || fi.Decl.Body == nil || len(c.inlineStack) >= 3 {
+		return false
+	}
+	for _, k := range c.inlineStack {
+		if k == fi.Key {
+			return false
+		}
+	}
+	if fi.Key == c.fi.Key {
+		return false
+	}
+	sig := fi.Obj.Type().(*types.Signature)
+	if sig.Recv() != nil {
+		if recv == nil || recvT == nil || !types.Identical(recvT, sig.Recv().Type()) {
+			return false
+		}
+	}
+	if sig.Variadic() {
+		return false
+	}
+	ok := true
+	ast.Inspect(fi.Decl.Body, func(n ast.Node) bool {
+		switch n.(type) {
+		case *ast.ForStmt, *ast.RangeStmt, *ast.FuncLit, *ast.GoStmt, *ast.DeferStmt, *ast.SelectStmt, *ast.LabeledStmt:
+			ok = false
+		}
+		return ok
+	})
+	return ok
+}
+
+func (c *FnCtx) inlineCall(st *State, fi *FuncInfo, recv *Term, args []*Term, site ast.Node) (rs []*Term, done bool) {
+	saveInfo, savePkg := c.info, c.pkg
+	c.info, c.pkg = fi.Pkg.TypesInfo, fi.Pkg.Types
+	c.inlineStack = append(c.inlineStack, fi.Key)
+	defer func() {
+		c.info, c.pkg = saveInfo, savePkg
+		c.inlineStack = c.inlineStack[:len(c.inlineStack)-1]
+	}()
+	c.findBoxed(fi.Decl.Body)
+	sig := fi.Obj.Type().(*types.Signature)
+	work := st.clone()
+	if sig.Recv() != nil && sig.Recv().Name() != "" && sig.Recv().Name() != "_" {
+		c.defineVar(work, sig.Recv(), recv.withGo(sig.Recv().Type()))
+	}
+	for i := 0; i < sig.Params().Len() && i < len(args); i++ {
+		p := sig.Params().At(i)
+		if p.Name() == "" || p.Name() == "_" {
+			continue
+		}
+		c.defineVar(work, p, args[i].withGo(p.Type()))
+	}
+	var results []*types.Var
+	for i := 0; i < sig.Results().Len(); i++ {
+		r := sig.Results().At(i)
+		results = append(results, r)
+		if r.Name() != "" && r.Name() != "_" {
+			c.defineVar(work, r, c.zero(r.Type()))
+		}
+	}
+	c.resultStack = append(c.resultStack, results)
+	outs := c.execBlock(work, fi.Decl.Body.List)
+	c.resultStack = c.resultStack[:len(c.resultStack)-1]
+	var cands []Out
+	for _, o := range outs {
+		switch o.flow {
+		case FReturn:
+			cands = append(cands, Out{st: o.st})
+		case FNormal:
+			o.st.ret = nil
+			cands = append(cands, Out{st: o.st})
+		default:
+			return nil, false
+		}
+	}
+	if len(cands) == 0 {
+		// every path panics: the obligations have been generated; the continuation is unreachable
+		st.assume(tFalse)
+		for i := 0; i < sig.Results().Len(); i++ {
+			rs = append(rs, c.zero(sig.Results().At(i).Type()))
+		}
+		return rs, true
+	}
+	c.keepRet = true
+	merged := c.mergeNormal(cands)
+	c.keepRet = false
+	if len(merged) != 1 {
+		return nil, false
+	}
+	m := merged[0].st
+	if len(m.ret) != sig.Results().Len() {
+		return nil, false
+	}
+	rs = m.ret
+	m.ret = nil
+	*st = *m
+	c.assumptionsUsed["repository functions without contract that are loop-free are inlined at the call site: "+shortFuncKey(fi.Key)] = true
+	return rs, true
 }
